@@ -799,6 +799,10 @@ const NUMERIC_CORPUS: &[&[u8]] = &[
     b"binary: 3\nab\nOK\n",
     b"binary: 0\n\nOK\n",
     b"binary: 03\nabc\nOK\n",
+    b"binary: 0003\nabc\nOK\n",
+    // a frame whose only component so far is an empty binary part, then the end of the stream
+    b"binary: 0\n\n",
+    b"a: 1\nOK\nbinary: 0\n\n",
     // what Rust's integer `FromStr` accepts beyond digits: ONE leading `+` (also for unsigned types)
     b"binary: +6\nFOOBAR\nOK\n",
     b"binary: +0\n\nOK\n",
@@ -971,6 +975,31 @@ pub fn gen(cfg: &Cfg) -> Vec<String> {
             flaky_ops(&mut r, &mut ops, cfg.n.unwrap_or(400 * scale));
         }
         "C02" => {
+            // the shortest responses there are: a one-letter key that is a prefix of a protocol keyword
+            // (`l`ist_OK, `b`inary, `O`K, `A`CK), an empty value, at every two-way split and bytewise
+            for key in ["l", "b", "x", "O", "A", "li", "bi", "list_O", "binary_"] {
+                let stream = format!("{key}: \nOK\n").into_bytes();
+                let h = hex(&stream);
+                let n = stream.len();
+                for fl in ["s", "a", "c"] {
+                    ops.push(format!("proto.recv {fl} {h} {n} eof 1"));
+                    ops.push(format!("proto.recv {fl} {h} {} eof 1", vec!["1"; n].join(",")));
+                    for p in 1..n {
+                        ops.push(format!("proto.recv {fl} {h} {p},{} eof 1", n - p));
+                    }
+                }
+            }
+            // greetings longer than the blocking connection's initial buffer
+            for vlen in [4088usize, 4089, 4090, 5000, 20000] {
+                let mut g = b"OK MPD ".to_vec();
+                g.extend((0..vlen).map(|i| b"0123456789.~gitabc"[i % 18]));
+                g.push(b'\n');
+                for fl in ["s", "a"] {
+                    ops.push(format!("proto.connect {fl} {} {} eof", hex(&g), g.len()));
+                    ops.push(format!("proto.connect {fl} {} 4096,{} eof", hex(&g), g.len() - 4096));
+                    ops.push(format!("proto.connect {fl} {} 7,{} eof", hex(&g), g.len() - 7));
+                }
+            }
             // > 16 MiB through one connection in reads that always fill the space offered: the blocking
             // buffer doubles up to 16 MiB; what is received must not depend on that
             ops.push(format!("proto.bigbin s 1048576 17 {} eof 1", hex(b"volume: 1\nOK\n")));
@@ -1254,6 +1283,17 @@ pub fn gen(cfg: &Cfg) -> Vec<String> {
                 let seg = gen_seg(&mut r, stream.len());
                 ops.push(format!("proto.recv c {h} {seg} eof 0"));
                 ops.push(format!("proto.recv a {h} {seg} eof 0"));
+                // pipelined lists: the replies to two lists arrive in ONE read while further lists are being
+                // sent between the receive calls (flavours S / A / C send a request, every third time a
+                // list, before each receive): what was received and not yet returned belongs to the lists
+                // already sent, positionally
+                let more: Vec<AbsResp> = (0..3).map(|_| gen_resp(&mut r, false)).collect();
+                let mut all = rs.clone();
+                all.extend(more);
+                let stream5 = enc_all(&all);
+                for fl in ["S", "A", "C"] {
+                    ops.push(format!("proto.recv {fl} {} {} eof 0", hex(&stream5), stream5.len()));
+                }
             }
         }
         other => panic!("family proto does not serve property {other}"),
